@@ -5,7 +5,9 @@ From Coq Require Import ZArith List String Bool.
 From NadaV.PyMini Require Import PyMini.
 From NadaV.Gen Require Import GenScalar.
 From NadaV.Model Require Import Rules Corr Mir Surface Trace Compile.
-From NadaV.Spec Require Taint.
+From NadaV.Spec Require Taint Tables.
+From NadaV.Gen Require GenFrontend.
+From NadaV.Proofs Require TableObligations.
 From NadaV.Spec Require Import TypingSpec.
 From NadaV.Proofs Require Import C03Proofs.
 Import ListNotations.
@@ -34,6 +36,30 @@ Print Assumptions C03_rules_unary_random.
 Example C03_nonvacuous :
   rule2 G OLt (MSecret, BInt) (MPublic, BInt) = Emit "LessThan" (MSecret, BBool) [("left", 0%Z); ("right", 1%Z)].
 Proof. vm_compute. reflexivity. Qed.
+
+(* collections: the element-wise product of two arrays is as secret as the more secret of the two
+   element types (the rule the model's RInner implements; the code it mirrors is pinned below) *)
+Theorem C03_inner_product_mode : forall tl tr : sty,
+  secret tl = true \/ secret tr = true -> secret (mode_max (fst tl) (fst tr), snd tl) = true.
+Proof. intros [[| |] bl] [[| |] br] [H | H]; simpl in *; try discriminate; reflexivity. Qed.
+Print Assumptions C03_inner_product_mode.
+
+Theorem C03_tables :
+  NadaV.Gen.GenFrontend.src_Array_inner_product = NadaV.Spec.Tables.src_Array_inner_product /\
+  NadaV.Gen.GenFrontend.src_Array_map = NadaV.Spec.Tables.src_Array_map /\
+  NadaV.Gen.GenFrontend.src_Array_reduce = NadaV.Spec.Tables.src_Array_reduce /\
+  NadaV.Gen.GenFrontend.src_Array_zip = NadaV.Spec.Tables.src_Array_zip /\
+  NadaV.Gen.GenFrontend.src_unzip = NadaV.Spec.Tables.src_unzip /\
+  NadaV.Gen.GenFrontend.src_generate_accessor = NadaV.Spec.Tables.src_generate_accessor /\
+  NadaV.Gen.GenFrontend.src_NadaFunction_call = NadaV.Spec.Tables.src_NadaFunction_call.
+Proof.
+  repeat split; first [ exact NadaV.Proofs.TableObligations.tbl_src_Array_inner_product
+    | exact NadaV.Proofs.TableObligations.tbl_src_Array_map | exact NadaV.Proofs.TableObligations.tbl_src_Array_reduce
+    | exact NadaV.Proofs.TableObligations.tbl_src_Array_zip | exact NadaV.Proofs.TableObligations.tbl_src_unzip
+    | exact NadaV.Proofs.TableObligations.tbl_src_generate_accessor
+    | exact NadaV.Proofs.TableObligations.tbl_src_NadaFunction_call ].
+Qed.
+Print Assumptions C03_tables.
 
 (* Part (b), graph level.  FULL statement over the model -- decided per program: [Taint.C03b m] is
    evaluated in Coq on every MIR the real compiler emits; not proved for all programs. *)
